@@ -97,6 +97,27 @@ Proof.
 Qed.
 Print Assumptions parameter_read_one_snapshot_not_stale.
 
+(* Producers whose evaluation PANICS for some parameter values (the client recovers, as the edit server does): the
+   call answers "panicked" exactly when the ONE state it is linearized at has such a value, and otherwise returns
+   the evaluation of that state -- in particular an artifact read after a completed update never shows the
+   pre-update state because an earlier call panicked. *)
+Theorem panicking_artifact_one_snapshot : forall fs s programs c tr x f bad,
+  lock_facts_ok fs = true ->
+  reach (guard_of fs) (init_config s programs) c tr -> quiescent c ->
+  In x (calls_of tr) -> c_op x = ArtifactP f bad ->
+  exists before after,
+    Permutation (before ++ x :: after) (calls_of tr) /\ legal s before /\
+    c_resp x = (if panics (map (fun p => (p, st_vals (run_calls s before) p)) f) bad then RPanic
+                else RArt (map (st_vals (run_calls s before)) f)) /\
+    Forall (fun u => c_inv x < c_res u) after.
+Proof.
+  intros fs s programs c tr x f bad HF HR HQ Hin Hop.
+  destruct (call_snapshot s (calls_of tr) x) as [before [after [HP [HL [HResp HA]]]]]; [|exact Hin|].
+  - eapply guarded_linearizable_quiescent; eauto. apply lock_facts_guard. exact HF.
+  - exists before, after. rewrite Hop in HResp. simpl in HResp. auto.
+Qed.
+Print Assumptions panicking_artifact_one_snapshot.
+
 (* Responses are VALUES: a response, once given, stays in the history unchanged however the run continues (later
    updates included), and it equals the specification's response at its linearization point -- in one state of
    a sequential execution of the whole extended run.  (In the model this is immediate because a response is a Coq
